@@ -738,13 +738,31 @@ def check_C13(tier_, sd, consts_ok, consts_detail):
             if len(violations) < 5:
                 violations.append(proj_violation("C13", "source ends with an ordinary text line but the output does not end with that line (+ line ending iff the option is on)", tl_on[k], a, tm[k],
                                                  extra={"on": short(x), "off": short(y), "last_line": p.last}))
-    cov = {"evaluations": 2 * n + 2 * len(tl) + len(hist), "distinct_nontrivial": len(nontriv), "needed_history_cases": len(hist),
+    # the binary: --no-trailing-newline must reach the build, the needed-build and the verify subcommand, and nothing else
+    src = {"a.txt.txtpp": "line1\n-TXTPP#temp t.tmp\n-body\nlast line\n", "b.txt.txtpp": "only\n"}
+    ses = cli_session(src, [["-q", "a.txt"], ["-q", "verify", "a.txt"], ["-q", "verify", "-n", "a.txt"], ["-q", "-n", "a.txt"], ["-q", "verify", "-n", "a.txt"],
+                            ["-q", "verify", "a.txt"], ["-q", "-N", "-n", "b.txt"], ["-q", "-N", "b.txt"], ["-q", "clean", "a.txt"]])
+    exp = [(0, b"line1\nlast line\n"), (0, None), (1, None), (0, b"line1\nlast line"), (0, None), (1, None), (0, None), (0, None), (0, None)]
+    cli_ok = []
+    for k, ((rc, tree, _), (erc, eout)) in enumerate(zip(ses, exp)):
+        ok = rc == erc and (eout is None or tree.get("a.txt") == eout)
+        cli_ok.append(ok)
+        if not ok and len(violations) < 5:
+            violations.append({"found": True, "replay": {"property": "C13", "what": "the binary's -n / --no-trailing-newline flag is not mapped as documented (step %d)" % k,
+                               "steps": "build; verify; verify -n; build -n; verify -n; verify; -N -n b; -N b; clean", "exit": rc, "expected_exit": erc,
+                               "a.txt": short(tree.get("a.txt")), "expected": short(eout)}})
+    if ses[6][1].get("b.txt") != b"only" or ses[7][1].get("b.txt") != b"only\n" or ses[3][1].get("t.tmp") != b"body":
+        if len(violations) < 5:
+            violations.append({"found": True, "replay": {"property": "C13", "what": "-N -n / temp file under -n wrong on the binary",
+                               "b_after_N_n": short(ses[6][1].get("b.txt")), "b_after_N": short(ses[7][1].get("b.txt")), "t.tmp": short(ses[3][1].get("t.tmp"))}})
+    cov = {"evaluations": 2 * n + 2 * len(tl) + len(hist) + len(ses), "distinct_nontrivial": len(nontriv), "needed_history_cases": len(hist), "cli_flag_steps_ok": cli_ok,
            "rule": "every generated project built twice (option on / off), same controlled schedule; relation checked on the implementation's bytes: identical or on = off + line ending, temp files identical; "
                    "plus sources ending in an ordinary text line; distinct_nontrivial = distinct (on, off) output pairs",
            "relation_distribution": dict(rel), "text_line_ending_cases": ntl, "input_distribution": dist_of(base),
            "samples": [{"on": short(oi[0]["F"].get(gen.out_name(base[0].srcs[0]))), "off": short(oi[n]["F"].get(gen.out_name(base[0].srcs[0])))}]}
     xcheck(cov, violations, "C13", on + off, om)
     return {"coverage": cov, "violations": violations}
+check_C13.needs_cli = True
 
 def le_of_source(data):
     first = data.split(b"\n")[0]
@@ -1246,13 +1264,25 @@ def check_C09(tier_, sd, consts_ok, consts_detail):
                     violations.append(proj_violation("C09", "stale %s was not brought up to date" % g, q, a, b))
         if (a["verdict"], a["U"]) != (b["verdict"], b["U"]) and a["verdict"] == "ok" and len(violations) < 5:
             violations.append(proj_violation("C09", "set of rewritten files differs from the model", q, a, b, found=False))
-    cov = {"evaluations": len(steps) + ngen, "distinct_nontrivial": len(nontriv),
+    ses = cli_session({"a.txt.txtpp": "x\n-TXTPP#temp t.tmp\n-body\ny\n"},
+                      [["-q", "-N", "a.txt"], ["-q", "-N", "a.txt"], ["-q", "a.txt"], ["!write", "a.txt", b"stale"], ["-q", "--needed", "a.txt"], ["-q", "-N", "verify", "a.txt"]])
+    m1, m2, m3 = ses[0][2], ses[1][2], ses[2][2]
+    cli_ok = [ses[0][0] == 0 and ses[0][1].get("a.txt") == b"x\ny\n",
+              ses[1][0] == 0 and m2.get("a.txt") == m1.get("a.txt") and m2.get("t.tmp") == m1.get("t.tmp"),       # -N again: nothing rewritten
+              ses[2][0] == 0 and m3.get("a.txt") != m2.get("a.txt") and m3.get("t.tmp") == m2.get("t.tmp"),       # plain build rewrites the output, not the temp file
+              ses[4][0] == 0 and ses[4][1].get("a.txt") == b"x\ny\n"]                                           # stale output brought up to date
+    if not all(cli_ok) and len(violations) < 5:
+        violations.append({"found": True, "replay": {"property": "C09", "what": "the binary's -N/--needed flag does not behave as documented", "steps_ok": cli_ok,
+                           "steps": "-N; -N (mtimes must stay); build (output mtime changes, temp stays); tamper; --needed (updated)"}})
+    cov = {"evaluations": len(steps) + ngen + len(ses), "distinct_nontrivial": len(nontriv), "cli_flag_steps_ok": cli_ok,
            "rule": "generated projects x pre-states of the generated paths (absent / exact / prefix / extended / junk incl. non-UTF-8) x modes {needed, build, verify}; all mtimes pre-set to a sentinel; "
                    "checked on the implementation: needed = build byte for byte, correct outputs (needed) and correct temp files (all modes) keep inode and mtime, stale ones are updated; plus source edits; "
                    "distinct_nontrivial = distinct (project, pre-state shape) under --needed",
            "files_left_untouched": untouched, "files_rewritten": rewritten, "samples": [steps[0].what]}
     xcheck(cov, violations, "C09", steps, om)
     return {"coverage": cov, "violations": violations}
+
+check_C09.needs_cli = True
 
 DECOYS = [("/decoy.txt", b"decoy\n"), ("/a.txt.bak", b"bak\n"), ("/sub/txtpp", b"not a source\n"), ("/sub/notes.txtp", b"near miss\n"),
           ("/other/z.txtpp.d/keep", b"inside a dir named like a source\n"), ("/a_t0.tmp.orig", b"orig\n"), ("/.hidden", b"h\n")]
@@ -1386,7 +1416,21 @@ def check_C11(tier_, sd, consts_ok, consts_detail):
                            "name": names[kk], "implementation": ni[kk], "model(spec)": nm[kk]}})
     for sb in shape_bad[:3]:
         violations.append({"found": True, "replay": {"property": "C11", "what": "documented output name shape violated", "source": sb[0], "expected_output": sb[1], "implementation": sb[2]}})
-    cov = {"evaluations": len(ncases) + len(projs), "distinct_nontrivial": len(nontriv) + len(set(nm)),
+    # the binary: -r / --recursive for build, verify and clean; default input `.`; output names as inputs
+    tree = {"top.txtpp": "t\n", "sub/s.txt.txtpp": "s\n", "sub/deep/d.txtpp.md": "d\n"}
+    ses = cli_session(tree, [["-q"], ["-q", "-r"], ["-q", "verify", "-r"], ["-q", "clean"], ["-q", "verify", "-r"], ["-q", "clean", "-r"], ["-q", "sub"], ["-q", "sub/deep/d.md", "top"]])
+    def outs(t): return sorted(k for k in t if ".txtpp" not in k)
+    want = [["top"], ["sub/deep/d.md", "sub/s.txt", "top"], None, ["sub/deep/d.md", "sub/s.txt"], None, [], ["sub/s.txt"], ["sub/deep/d.md", "sub/s.txt", "top"]]
+    wrc = [0, 0, 0, 0, 1, 0, 0, 0]
+    cli_ok = []
+    for k, ((rc, t, _), w, e) in enumerate(zip(ses, want, wrc)):
+        ok = rc == e and (w is None or outs(t) == w)
+        cli_ok.append(ok)
+        if not ok and len(violations) < 6:
+            violations.append({"found": True, "replay": {"property": "C11", "what": "the binary processed the wrong set of sources for its flags (step %d)" % k,
+                               "steps": "txtpp; txtpp -r; verify -r; clean; verify -r; clean -r; txtpp sub; txtpp sub/deep/d.md top", "exit": rc, "expected_exit": e,
+                               "outputs_present": outs(t), "expected_outputs": w}})
+    cov = {"evaluations": len(ncases) + len(projs) + len(ses), "distinct_nontrivial": len(nontriv) + len(set(nm)), "cli_flag_steps_ok": cli_ok,
            "rule": "(1) every name of <= %d tokens over {a, b, ., txtpp, txt, é} through is_txtpp_file / remove_txtpp (exhaustive); the three documented shapes on the implementation; "
                    "(2) random trees (names incl. txtpp, .txtpp, dotted stems, near misses, a directory named d.txtpp, an empty directory) x input lists (directories, source names, output names, ./ and ../ forms, duplicates, missing targets) "
                    "x recursion on/off x base directory = root or a sub-directory: verdict and exactly which outputs exist afterwards; distinct_nontrivial = distinct (inputs, outputs produced) + distinct name observations" % (5 if tier_ == "quick" else 6),
@@ -1396,6 +1440,8 @@ def check_C11(tier_, sd, consts_ok, consts_detail):
     xcheck(cov, violations, "C11", projs, om)
     return {"coverage": cov, "violations": violations}
 
+check_C11.needs_cli = True
+
 _NAME_CACHE = {}
 def run_model_name(path):
     """output path of a source path according to the model (None if not a source)"""
@@ -1403,6 +1449,39 @@ def run_model_name(path):
         o = run_model(["N " + hx(path.lstrip("/"))])[0].split(" ")
         _NAME_CACHE[path] = None if o[2] == "-" else "/" + unhx(o[2]).decode()
     return _NAME_CACHE[path]
+
+
+# ------------------------------------------------------------------ the real binary (flag mapping of main.rs)
+def cli_session(files, steps, dirs=()):
+    """materialise `files` in a scratch directory, run the txtpp binary once per step (a list of argument lists), and return
+    after each step (exit code, {relative path: bytes}, {relative path: mtime_ns})"""
+    import tempfile
+    d = tempfile.mkdtemp(prefix="vp-cli-", dir=os.environ.get("VP_TMP", "/dev/shm"))
+    out = []
+    try:
+        for x in dirs: os.makedirs(os.path.join(d, x), exist_ok=True)
+        for f, c in files.items():
+            os.makedirs(os.path.dirname(os.path.join(d, f)) or d, exist_ok=True)
+            open(os.path.join(d, f), "wb").write(c if isinstance(c, bytes) else c.encode())
+        for root, _, fs_ in os.walk(d):
+            for f in fs_: os.utime(os.path.join(root, f), ns=(946684800 * 10**9, 946684800 * 10**9))
+        env = {k: v for k, v in os.environ.items() if k != "TXTPP_FILE"}
+        for args in steps:
+            if args and args[0] == "!chmod":
+                os.chmod(os.path.join(d, args[1]), 0o755); out.append((0, {}, {})); continue
+            if args and args[0] == "!write":
+                open(os.path.join(d, args[1]), "wb").write(args[2]); out.append((0, {}, {})); continue
+            try: rc = subprocess.run([CLI] + list(args), cwd=d, env=env, stdout=subprocess.DEVNULL, stderr=subprocess.DEVNULL, timeout=60).returncode
+            except subprocess.TimeoutExpired: rc = "timeout"
+            tree, mt = {}, {}
+            for root, _, fs_ in os.walk(d):
+                for f in fs_:
+                    q = os.path.join(root, f); rel = os.path.relpath(q, d)
+                    tree[rel] = open(q, "rb").read(); mt[rel] = os.stat(q).st_mtime_ns
+            out.append((rc, tree, mt))
+    finally:
+        shutil.rmtree(d, ignore_errors=True)
+    return out
 
 # ------------------------------------------------------------------ C17 run contract
 def norm_join(base_dir, rel):
@@ -1502,16 +1581,30 @@ def check_C17(tier_, sd, consts_ok, consts_detail):
             violations.append({"found": True, "replay": {"property": "C17", "what": "a run directive could recurse into txtpp", "exit": r3.returncode, "inner_output_created": made3}})
     finally:
         shutil.rmtree(d, ignore_errors=True)
+    # the configured shell (-s): its arguments come first and in order, the joined command is ONE final argument, the working
+    # directory is the source's directory; an unresolvable shell fails the run before anything is written
+    script = b"#!/bin/sh\nfor a in \"$@\"; do printf '%s|' \"$a\"; done; printf 'D=%s' \"$(basename \"$(pwd -P)\")\"\n"
+    srcs = {"sub/a.txt.txtpp": "-TXTPP#run hello  world 'x'\n-   and more\n\nafter\n", "myshell": script}
+    ses = cli_session(srcs, [["!chmod", "myshell"], ["-q", "-s", "./myshell A  B", "sub/a.txt"], ["-q", "verify", "-s", "./myshell A B", "sub/a.txt"],
+                             ["-q", "verify", "-s", "./myshell B A", "sub/a.txt"], ["-q", "clean", "sub"], ["-q", "-s", "no-such-shell-xyz -c", "sub/a.txt"],
+                             ["-q", "-s", "   ", "sub/a.txt"]])
+    want_sh = b"A|B|hello  world 'x'    and more|D=sub\nafter\n"   # the output has no final newline, so the blank line's ending terminates it
+    shell_ok = [ses[1][0] == 0 and ses[1][1].get("sub/a.txt") == want_sh, ses[2][0] == 0, ses[3][0] == 1,
+                ses[5][0] == 1 and "sub/a.txt" not in ses[5][1], ses[6][0] == 1]
+    if not all(shell_ok):
+        violations.append({"found": True, "replay": {"property": "C17", "what": "the configured shell is not invoked as documented (arguments first, the joined command as one final argument, the source's directory)",
+                           "steps": "-s './myshell A  B' build; verify same shell; verify other args (must fail); clean; unresolvable shell (must fail, nothing written); blank -s = default sh -c (command `hello` fails)",
+                           "steps_ok": shell_ok, "output": short(ses[1][1].get("sub/a.txt")), "expected": short(want_sh), "exits": [x[0] for x in ses]}})
     kn = []
     if known:
         kn.append("class=txtpp_file_nested TXTPP_FILE is the base-relative path and does not designate the source from the command's directory for sources below (not directly in) the base directory: "
                   "%d cases, e.g. %s" % (sum(known.values()), sorted(known)[0]))
-    cov = {"evaluations": len(projs) + 3, "distinct_nontrivial": len(nontriv),
+    cov = {"evaluations": len(projs) + 3 + len(ses), "distinct_nontrivial": len(nontriv),
            "rule": "sources at depth 0..3 x base directory {root, /sub, /sub/deep, unrelated /other} x process cwd {unchanged, root, a decoy directory containing the same relative directory names, /sub} "
                    "(library entry point through the harness; base given relative to the cwd when possible) x {ok, non-zero exit}; each source runs pwd -P, prints TXTPP_FILE, a 3-line command and a 2-line command; "
-                   "checked on the implementation: working directory, joining by single spaces, TXTPP_FILE designates the source, non-zero status fails; CLI: TXTPP_FILE guard and no recursion; "
+                   "checked on the implementation: working directory, joining by single spaces, TXTPP_FILE designates the source, non-zero status fails; CLI: TXTPP_FILE guard, no recursion, and a configured shell (-s) receiving its arguments then the joined command as one argument; "
                    "distinct_nontrivial = distinct (source, base, cwd) with all run directives succeeding",
-           "txtpp_file_designates_source": ok_file, "known_finding_cases": sum(known.values()), "cli_guard": cli,
+           "txtpp_file_designates_source": ok_file, "known_finding_cases": sum(known.values()), "cli_guard": cli, "configured_shell_steps_ok": shell_ok,
            "samples": [{"source": meta[5][0], "base": meta[5][1], "cwd": meta[5][2], "output": short(oi[5]["F"].get(gen.out_name(meta[5][0])))}]}
     return {"coverage": cov, "violations": violations, "known": kn}
 check_C17.needs_cli = True
